@@ -8,36 +8,44 @@ namespace SigV4.C04
 
 /-- The allowed mismatch is exactly 15 minutes, in nanoseconds. -/
 theorem allowed_mismatch_value : ALLOWED_MISMATCH = 900 * 1000000000 := by
-  sorry
+  decide
 
 /-- Outside the window the authenticator is refused as a signature mismatch (expired / not yet
 current), whatever its credential looks like. -/
 theorem prevalidate_outside (a : Authenticator) (region service : Bytes) (now : Int)
     (hr : nowRepresentable now) (h : ¬ inWindow a.timestamp now) :
     prevalidate a region service now = .err .SignatureDoesNotMatch := by
-  sorry
+  exact prevalidate_err_of_not_inWindow a region service now hr h
 
 /-- Inside the window (bounds inclusive) the timestamp alone never causes rejection: the verdict is
 that of the credential-scope rule. -/
 theorem prevalidate_inside (a : Authenticator) (region service : Bytes) (now : Int)
     (hr : nowRepresentable now) (h : inWindow a.timestamp now) :
     prevalidate a region service now = scopeCheck a region service := by
-  sorry
+  exact prevalidate_eq_scopeCheck_of_inWindow a region service now hr h
 
-/-- The decision depends only on the instant: authenticators with the same instant (whatever text
-denoted it) get the same freshness verdict. -/
+/-- The decision depends only on the instant: two authenticators with the same instant (whatever
+text denoted it, whatever else they carry) get the same freshness verdict — either both are
+inside the window, where the timestamp causes no rejection, or both are refused as stale/early. -/
 theorem freshness_depends_only_on_instant (a a' : Authenticator) (region service : Bytes) (now : Int)
     (hr : nowRepresentable now) (ht : a.timestamp = a'.timestamp) :
-    (prevalidate a region service now = scopeCheck a region service) ↔
-    (prevalidate a' region service now = scopeCheck a' region service) := by
-  sorry
+    (prevalidate a region service now = scopeCheck a region service ∧
+      prevalidate a' region service now = scopeCheck a' region service) ∨
+    (prevalidate a region service now = .err .SignatureDoesNotMatch ∧
+      prevalidate a' region service now = .err .SignatureDoesNotMatch) :=
+  freshness_verdict_depends_only_on_instant a a' region service now hr ht
 
 /-- Acceptance implies freshness. -/
 theorem accept_implies_inWindow {σ : Type} (H : Bytes → Bytes) (cfg : Config) (P : Provider σ) (s : σ)
     (req : Request) (r : Returned) (hr : nowRepresentable cfg.now)
     (h : (validate H cfg P s req).out = .ok r) :
     ∃ a, authOf H cfg req = .ok a ∧ inWindow a.timestamp cfg.now := by
-  sorry
+  obtain ⟨a, ha⟩ := authOf_ok_of_validate P s (Or.inl ⟨r, h⟩)
+  refine ⟨a, ha, ?_⟩
+  obtain ⟨_, _, _, _, hok⟩ := validate_of_authOf_ok P s ha
+  obtain ⟨resp, hresp⟩ := hok r h
+  exact inWindow_of_prevalidate_ok a cfg.region cfg.service cfg.now hr
+    (prevalidate_ok_of_validateSignature H P s a cfg.region cfg.service cfg.now (Or.inl ⟨resp, hresp⟩))
 
 /-- Outside the window the request is refused before any key lookup: no provider call, provider
 state untouched, whatever the provider would have answered. -/
@@ -46,20 +54,31 @@ theorem outside_window_no_key_lookup {σ : Type} (H : Bytes → Bytes) (cfg : Co
     (ha : authOf H cfg req = .ok a) (h : ¬ inWindow a.timestamp cfg.now) :
     (validate H cfg P s req).out = .err .SignatureDoesNotMatch ∧ (validate H cfg P s req).calls = [] ∧
     (validate H cfg P s req).state = s := by
-  sorry
+  obtain ⟨hc, hs, he, _, _⟩ := validate_of_authOf_ok P s ha
+  have hv := validateSignature_of_prevalidate_err H P s a cfg.region cfg.service cfg.now _
+    (prevalidate_err_of_not_inWindow a cfg.region cfg.service cfg.now hr h)
+  rw [hv] at hc hs he
+  exact ⟨he _ rfl, hc, hs⟩
 
 /-- Both bounds are inclusive and sharp at nanosecond resolution. -/
 theorem window_bounds_sharp (now : Int) :
     inWindow (now - ALLOWED_MISMATCH) now ∧ inWindow (now + ALLOWED_MISMATCH) now ∧
     ¬ inWindow (now - ALLOWED_MISMATCH - 1) now ∧ ¬ inWindow (now + ALLOWED_MISMATCH + 1) now := by
-  sorry
+  unfold inWindow
+  rw [ALLOWED_MISMATCH_val]
+  omega
 
 /-- Every server time between year 0001 and year 9999 is representable (so the theorems above apply
 to all of them, including day, month, year and leap-day boundaries). -/
 theorem civil_years_representable (now : Int)
     (h : daysFromCivil 1 1 1 * 86400 * NS_PER_SEC ≤ now ∧ now < daysFromCivil 10000 1 1 * 86400 * NS_PER_SEC) :
     nowRepresentable now := by
-  sorry
+  have h1 : daysFromCivil 1 1 1 * 86400 * NS_PER_SEC = -62135596800000000000 := by decide
+  have h2 : daysFromCivil 10000 1 1 * 86400 * NS_PER_SEC = 253402300800000000000 := by decide
+  rw [h1, h2] at h
+  unfold nowRepresentable
+  rw [ALLOWED_MISMATCH_val, CHRONO_MIN_val, CHRONO_MAX_val]
+  omega
 
 example : nowRepresentable 1440938160000000000 := by decide
 example : inWindow 1440938160000000000 (1440938160000000000 + 900 * 1000000000) := by decide
